@@ -67,38 +67,53 @@ def _prepare_scratch():
     os.makedirs(NATIVE_ROOT, exist_ok=True)
     subprocess.run(['rsync', '-a', '--delete', '--exclude', '/target', '--exclude', '.git', REPO + '/', src + '/'],
                    check=True)
-    by_file = {}
+    # cargo decides freshness by mtime, rsync -a restores OLD mtimes: a file that differs in content from the one used for the
+    # last build (in either direction: a change, or the change undone) must look new. Keep a content-hash book and touch
+    # every source file whose hash changed since the last batch; unchanged files keep the mtime recorded for them.
+    import hashlib
+    book_path = os.path.join(CACHE, 'native-hashes.json')
+    try:
+        with open(book_path) as f:
+            book = json.load(f)
+    except Exception:
+        book = {}
+    now = time.time()
+    appended = {}
     for j in all_jobs():
         if j['engine'] == 'native':
-            by_file.setdefault(j['target_file'], [])
-            if j['harness'] not in by_file[j['target_file']]:
-                by_file[j['target_file']].append(j['harness'])
-    for target, harnesses in by_file.items():
+            appended.setdefault(j['target_file'], [])
+            if j['harness'] not in appended[j['target_file']]:
+                appended[j['target_file']].append(j['harness'])
+    for target, harnesses in appended.items():
         p = os.path.join(src, target)
         with open(p) as f:
             text = f.read()
         for h in harnesses:
             with open(os.path.join(HERE, 'native', h)) as f:
                 text += '\n' + f.read()
-        # cargo decides freshness by mtime: give the appended file a NEW mtime whenever its content differs from
-        # the one used for the last build, and the SAME mtime as last time otherwise (so unchanged sources stay fresh)
-        import hashlib
-        digest = hashlib.sha1(text.encode()).hexdigest()
-        book_path = os.path.join(CACHE, 'native-mtimes.json')
-        try:
-            with open(book_path) as f:
-                book = json.load(f)
-        except Exception:
-            book = {}
-        now = time.time()
-        if book.get(target, [None, 0])[0] != digest:
-            book[target] = [digest, now]
-            os.makedirs(CACHE, exist_ok=True)
-            with open(book_path, 'w') as f:
-                json.dump(book, f)
         with open(p, 'w') as f:
             f.write(text)
-        os.utime(p, (now, book[target][1]))
+    seen = set()
+    for root, dirs, files in os.walk(src):
+        dirs[:] = [d for d in dirs if d not in ('target', '.git')]
+        for fn in files:
+            if not fn.endswith(('.rs', '.toml', '.lock', '.lalrpop', '.json')):
+                continue
+            p = os.path.join(root, fn)
+            rel = os.path.relpath(p, src)
+            seen.add(rel)
+            with open(p, 'rb') as f:
+                digest = hashlib.sha1(f.read()).hexdigest()
+            ent = book.get(rel)
+            if ent is None or ent[0] != digest:
+                book[rel] = [digest, now]
+            os.utime(p, (now, book[rel][1]))
+    for rel in list(book):
+        if rel not in seen:
+            del book[rel]
+    os.makedirs(CACHE, exist_ok=True)
+    with open(book_path, 'w') as f:
+        json.dump(book, f)
     return src
 
 
